@@ -27,8 +27,9 @@ static std::string g_scratch;
 static bool g_stats_dumped = false;
 
 // current case mirror (survives sanitizer aborts)
-static const uint8_t* g_cur_data = nullptr;
+static uint8_t g_cur_data[1 << 16];   // private copy of the running tape (the generator may free its own)
 static size_t g_cur_len = 0;
+static bool g_violation_saved = false;  // an oracle failure was persisted; a later abort must not overwrite it
 static char g_sweep_label[256] = "";
 static bool g_in_sweep = false;
 static char g_sweep_filter[256] = "";
@@ -133,7 +134,7 @@ static void save_failure(const char* kind, const std::string& msg) {
 
 static void death_cb() {
 	// sanitizer report in progress: persist the case and the counters (no atexit will run)
-	save_failure("sanitizer", g_in_sweep ? g_sweep_label : "see stderr");
+	if (!g_violation_saved) save_failure("sanitizer", g_in_sweep ? g_sweep_label : "see stderr");
 	dump_stats();
 	if (!g_scratch.empty()) rm_rf(g_scratch);
 }
@@ -172,7 +173,8 @@ bool sw(const char* group, uint64_t a, uint64_t b, uint64_t c, uint64_t d) {
 using namespace verif;
 
 static int run_one(const uint8_t* d, size_t n, std::string* msg) {
-	g_cur_data = d; g_cur_len = n;
+	g_cur_len = n < sizeof g_cur_data ? n : sizeof g_cur_data;
+	if (g_cur_len) memcpy(g_cur_data, d, g_cur_len);
 	++g_stats.evaluations;
 	Tape t(d, n);
 	arm();
@@ -188,6 +190,7 @@ static int fuzz_cb(const uint8_t* d, size_t n) {
 	std::string msg;
 	if (run_one(d, n, &msg)) {
 		save_failure("violation", msg);
+		g_violation_saved = true;
 		dump_stats();
 		fprintf(stderr, "ORACLE VIOLATION: %s\n", msg.c_str());
 		if (!g_scratch.empty()) rm_rf(g_scratch);
@@ -214,6 +217,7 @@ static int mode_pbt(int n, int maxsize) {
 		std::string msg;
 		if (run_one(tape.data(), tape.size(), &msg)) {
 			save_failure("violation", msg);   // last failing execution == the shrunk one
+			g_violation_saved = true;
 			RC_FAIL(msg);
 		}
 	});
